@@ -28,6 +28,9 @@ func main() {
 		}
 	case "probe":
 		probe(os.Args[2:])
+	case "gen":
+		sd, _ := strconv.ParseUint(os.Args[3], 10, 64)
+		fmt.Print(c03.DevGen(os.Args[2], sd, os.Args[4]))
 	case "plain":
 		fmt.Print(c03.DevPlain(os.Args[2]))
 	case "mutants":
